@@ -194,6 +194,39 @@ pub fn panic_site(p: &str) -> String {
 }
 
 // ------------------------------------------------------------------------------------------------
+// watchdog: a wall-clock limit never yields a violation, only "inconclusive" (exit 2)
+
+static HEARTBEAT: AtomicU64 = AtomicU64::new(0);
+
+#[inline]
+pub fn heartbeat() {
+    HEARTBEAT.fetch_add(1, Ordering::Relaxed);
+}
+
+/// Exit with status 2 when no case completes for `secs` seconds.
+pub fn start_watchdog(secs: u64) {
+    std::thread::spawn(move || {
+        let mut last = HEARTBEAT.load(Ordering::Relaxed);
+        let mut idle = 0u64;
+        loop {
+            std::thread::sleep(std::time::Duration::from_secs(5));
+            let now = HEARTBEAT.load(Ordering::Relaxed);
+            if now == last {
+                idle += 5;
+                if idle >= secs {
+                    eprintln!("WATCHDOG: no case finished for {idle} s - inconclusive (hang in the code under test or in the harness)");
+                    cleanup_scratch();
+                    std::process::exit(2);
+                }
+            } else {
+                idle = 0;
+                last = now;
+            }
+        }
+    });
+}
+
+// ------------------------------------------------------------------------------------------------
 // scratch space
 
 pub fn scratch_root() -> PathBuf {
@@ -459,6 +492,7 @@ impl Ctx {
                         for i in lo..hi {
                             let case = gen(i);
                             let out = part.run(&case);
+                            heartbeat();
                             local.evaluations += 1;
                             if let Some(h) = out.nontrivial {
                                 local.nontrivial.insert(h);
@@ -584,6 +618,7 @@ impl Ctx {
                             return Ok(());
                         }
                         let out = part.run(&case);
+                        heartbeat();
                         if !failing.get() {
                             let mut l = local.borrow_mut();
                             l.evaluations += 1;
